@@ -166,6 +166,9 @@ func VH_C03_Op() {
 					idx := te.table.FindPlayerIdx(j.PlayerID)
 					verifrt.Assert(idx >= 0 && te.table.State.PlayerStates[idx].Seat == j.Seat, "a fixed-seat join gets that seat")
 				}
+				// C01: every player of a batch brings exactly the amount named for *him*
+				bidx := te.table.FindPlayerIdx(j.PlayerID)
+				verifrt.Assert(bidx >= 0 && te.table.State.PlayerStates[bidx].Bankroll == j.RedeemChips, "a player joining in a batch brings exactly his own amount")
 			}
 		}
 	}
@@ -261,13 +264,16 @@ func VH_C03_Create() {
 	verifrt.Assert(len(te.table.State.PlayerStates) == len(jps), "exactly the named players are seated")
 	for _, j := range jps {
 		cnt, at := 0, -2
+		var chips int64 = -1
 		for _, p := range te.table.State.PlayerStates {
 			if p.PlayerID == j.PlayerID {
 				cnt++
 				at = p.Seat
+				chips = p.Bankroll
 			}
 		}
 		verifrt.Assert(cnt == 1, "a player named at creation appears exactly once")
+		verifrt.Assert(chips == j.RedeemChips, "a player named at creation brings exactly his own amount")
 		verifrt.Assert(j.Seat == -1 || at == j.Seat, "a fixed seat named at creation is honoured")
 	}
 	verifrt.Reach("end")
